@@ -168,6 +168,7 @@ func allProps() []Prop {
 		{Dir: pb, Harness: "prober", Entry: "VerifH_interval", Logic: "QF_FPBV"},
 		{Dir: pb, Harness: "prober", Entry: "VerifH_t4t7", Logic: "QF_UFBV", NoReplay: true},
 		{Dir: pb, Harness: "prober", Entry: "VerifH_t4t7c"},
+		{Dir: pb, Harness: "prober", Entry: "VerifH_uri", Unroll: 8},
 		{Dir: pb, Harness: "prober", Entry: "VerifH_payload", Flags: []string{"size=0"}},
 		{Dir: pb, Harness: "prober", Entry: "VerifH_payload", Flags: []string{"size=3"}},
 		{Dir: "spanner_prober", Harness: "spanner_prober", Entry: "VerifH_flags", Logic: "QF_UFFPBV", NoReplay: true},
@@ -181,7 +182,7 @@ func allProps() []Prop {
 		"loop unroll": "6 unless stated",
 	}
 	raceJobs := cat(
-		caseJobs("VerifH_race", map[string][]int{"pair": {0, 1, 2, 3, 4, 5, 6}}, []string{"pair"}),
+		caseJobs("VerifH_race", map[string][]int{"pair": {0, 1, 2, 3, 4, 5, 6, 8}}, []string{"pair"}),
 		[]Job{{Dir: gcp, Harness: gcp, Entry: "VerifH_race", Flags: []string{"pair=7", "rr"}}},
 		caseJobs("VerifH_racegme", map[string][]int{"pair": {0, 1, 2, 3, 4, 5, 6, 7}}, []string{"pair"}),
 		[]Job{{Dir: me, Harness: "multiendpoint", Entry: "VerifH_raceme", TmoMs: 60000}})
@@ -200,14 +201,14 @@ func allProps() []Prop {
 		{ID: "C19", Jobs: ckJobs, Panics: true, Assume: append(append([]string{}, commonAssume...), "crc32.MakeTable/Checksum are an uninterpreted function of (polynomial, exact byte slice): the arithmetic of CRC32C (stdlib, partly assembly) is not encoded", "the inner codec is a harness fake returning arbitrary bytes: 'decodes to an equal message' inside the protobuf runtime is reduced to 'a conforming parser (real protowire.ConsumeField) skips exactly the 6-byte prefix'"), Bounds: ckBounds},
 		{ID: "C13", Jobs: meJobs, Panics: true, Assume: commonAssume, Bounds: meBounds},
 		{ID: "C14", Jobs: meJobs, Assume: commonAssume, Bounds: meBounds},
-		{ID: "C01", Jobs: cat(usc, uccs, pick, done), Assume: commonAssume, Bounds: gbBounds},
-		{ID: "C02", Jobs: cat(usc, uccs, pick, done, rr, rrwin), Assume: commonAssume, Bounds: gbBounds},
+		{ID: "C01", Jobs: cat(usc, uccs, pick, pickRR, done), Assume: commonAssume, Bounds: gbBounds},
+		{ID: "C02", Jobs: cat(usc, uccs, pick, pickRR, done, rr, rrwin), Assume: commonAssume, Bounds: gbBounds},
 		{ID: "C03", Jobs: cat(initJ, usc, uccs, pick, done, donep3, grow), Assume: commonAssume, Bounds: gbBounds},
 		{ID: "C04", Jobs: cat(cnt, initJ, usc, errpick, pick, done), Assume: commonAssume, Bounds: gbBounds},
 		{ID: "C05", Jobs: cat(allGb, keysJobs), Panics: true, Assume: commonAssume, Bounds: gbBounds},
 		{ID: "C06", Jobs: allGb, Progress: true, Assume: commonAssume, Bounds: gbBounds},
 		{ID: "C07", Jobs: cat(initJ, usc, done, donep3, []Job{{Dir: gcp, Harness: gcp, Entry: "VerifH_window", TmoMs: 240000, Note: "independent mathematical form of the detection window"}}), Assume: commonAssume, Bounds: gbBounds},
-		{ID: "C08", Jobs: cat(usc, pick, done), Assume: commonAssume, Bounds: gbBounds},
+		{ID: "C08", Jobs: cat(usc, pick, pickRR, done), Assume: commonAssume, Bounds: gbBounds},
 		{ID: "C09", Jobs: cat(rr, rrwin, pickRR, usc), Assume: commonAssume, Bounds: gbBounds},
 		{ID: "C20", Jobs: cat(initJ, uccs, usc, reserr, done, donep3, caseJobs("VerifH_pick", map[string][]int{"method": {0}, "stale": {0, 1}}, []string{"method", "stale"}), grow), Assume: commonAssume, Bounds: gbBounds},
 	}
